@@ -184,9 +184,32 @@ def e5(rep, src):
 # ------------------------------------------------------------------------------------------------ E7 / E8
 
 
-def comp_mentions(e, node):
-    """components of `node` (fields `node.x` or accessors `node.x()`) mentioned in expression e."""
+_CM_LOCALS = {}  # locals of the function being read: name -> expressions its value is made of (initialiser, pushed / extended values; a loop variable: the iterated expression)
+
+
+def set_cm_locals(f):
+    _CM_LOCALS.clear()
+    if f is None or not f.body:
+        return
+    for x in walk(f.body):
+        k = x.get("k")
+        if k == "let" and x.get("init") is not None:
+            for b in pat_binds(x["pat"]):
+                _CM_LOCALS.setdefault(b, []).append(x["init"])
+        elif k == "for":
+            for b in pat_binds(x["pat"]):
+                _CM_LOCALS.setdefault(b, []).append(x["e"])
+        elif k == "mcall" and x["m"] in ("push", "extend", "insert", "push_back", "append") and x["recv"]["k"] == "path" and len(x["recv"]["segs"]) == 1:
+            _CM_LOCALS.setdefault(x["recv"]["segs"][0], []).extend(x["args"])
+        elif k == "assign" and x["lhs"]["k"] == "path" and len(x["lhs"]["segs"]) == 1:
+            _CM_LOCALS.setdefault(x["lhs"]["segs"][0], []).append(x["rhs"])
+
+
+def comp_mentions(e, node, _depth=0, _seen=None):
+    """components of `node` (fields `node.x` or accessors `node.x()`) mentioned in expression e - through the locals of the function (def-use: `let limit = map.limit.clone(); .. limit.clone()`,
+    `for field in reduce.schema().iter() { columns.push(ident(field.name())) } .. columns`)."""
     out = set()
+    _seen = _seen if _seen is not None else set()
     for x in walk(e):
         if x["k"] == "field" and path_of(x["e"]) == node:
             out.add(x["name"])
@@ -194,6 +217,10 @@ def comp_mentions(e, node):
             out.add(x["m"])
         elif x["k"] == "path" and x["p"] == node:
             out.add("<self>")
+        elif x["k"] == "path" and len(x.get("segs", [])) == 1 and x["segs"][0] in _CM_LOCALS and x["segs"][0] not in _seen and _depth < 4:
+            _seen.add(x["segs"][0])
+            for src_e in _CM_LOCALS[x["segs"][0]]:
+                out |= comp_mentions(src_e, node, _depth + 1, _seen)
     return out
 
 
@@ -349,6 +376,7 @@ def e7_e8(rep, src):
         from .canon import canon_view
 
         f = canon_view(fns[nm], src, keep=CANON_KEEP)  # named locals (`let cte_name = ..`) and extracted private helpers are transparent
+        set_cm_locals(f)
         node = [p["pat"]["name"] for p in f.params if not p.get("self") and p["pat"]["k"] == "ident"][0]
         key = "FromRelationVisitor::" + nm
         ctes = [m for m in find(f.body, "mcall") if m["m"] == "cte" and len(m["args"]) == 3]
@@ -775,6 +803,37 @@ def e13(rep, src):
         for side in ("left", "right"):
             key = "FromRelationVisitor::%s@%s" % (name, side)
             cs = [c for c in sources if side in show(c["args"][0], 0)]
+            if not cs:
+                # the input query itself is handed to a private helper that pulls its CTEs and merges them: `push_unseen_ctes(left, &mut seen, &mut ctes)`
+                done = False
+                for c in find(f.body, "call"):
+                    pth = path_of(c["f"]) or ""
+                    hs = [h for h in src.find_fns(name=pth, file="relation/sql.rs") if not h.self_ty and h.body and (h.node.get("vis") or "") == ""] if pth and "::" not in pth else []
+                    idx = [i for i, a in enumerate(c["args"]) if any(x["k"] == "path" and x.get("segs") == [side] for x in walk(a))]
+                    if len(hs) != 1 or len(idx) != 1 or idx[0] >= len(hs[0].params) or hs[0].params[idx[0]]["pat"]["k"] != "ident":
+                        continue
+                    h, pn = hs[0], hs[0].params[idx[0]]["pat"]["name"]
+                    inner = [q for q in find(h.body, "call") if is_call_to(q, "ctes_from_query") and any(x["k"] == "path" and x.get("segs") == [pn] for x in walk(q["args"][0]))]
+                    if len(inner) != 1:
+                        continue
+                    # the helper's sets are its parameters: the guard set is named by the caller's argument
+                    hsets = {p_["pat"]["name"]: i for i, p_ in enumerate(h.params) if p_["pat"]["k"] == "ident" and ("HashSet" in p_["ty"] or "BTreeSet" in p_["ty"])}
+                    g = None
+                    for lp in find(h.body, "for"):
+                        if any(x is inner[0] for x in walk(lp["e"])):
+                            g = guarded_push(lp["body"], hsets)
+                    for m in find(h.body, "mcall"):
+                        if m["m"] == "for_each" and any(x is inner[0] for x in walk(m["recv"])) and m["args"] and m["args"][0]["k"] == "closure":
+                            g = g or guarded_push(m["args"][0]["body"], hsets)
+                    rep.instance("E13", key, {"visitor": name, "input": side, "merged_by": "helper %s under if %s.insert(..)" % (h.name, g) if g else None})
+                    if g is None:
+                        rep.violation("E13", key, "the CTEs of the %s input of %s are handed to %s, which does not merge them through a set" % (side, name, h.name), f.where())
+                    else:
+                        used_sets.add(show(c["args"][hsets[g]], 0).replace(" ", "").replace("&mut", ""))
+                    done = True
+                    break
+                if done:
+                    continue
             if len(cs) != 1:
                 rep.undecidable("E13", key, "expected one ctes_from_query(%s), found %d" % (side, len(cs)), f.where())
                 continue
@@ -1004,7 +1063,9 @@ def e18(rep, src):
             rep.undecidable("E18", key, "definition not found in %s" % F, "src/" + F)
             continue
         pn = [p["pat"]["name"] for p in f.params if not p.get("self") and p["pat"]["k"] == "ident"]
-        st = f.body["stmts"]
+        from .canon import canon_view as _cv18
+
+        st = _cv18(f, src, helpers=False).body["stmts"]  # `let name: String = name.into(); Identifier(vec![name])` is read through
         e = st[0]["e"] if len(st) == 1 and st[0]["k"] == "expr" else None
         t = show(e, 0).replace(" ", "") if e is not None else ""
         ok = bool(pn) and t in ("Identifier::from_name(%s)" % pn[0], "Self::from_name(%s)" % pn[0], "Identifier(vec!(%s.into()))" % pn[0], "Identifier(vec!(%s))" % pn[0], "Identifier(vec!(%s.to_string()))" % pn[0],
@@ -1182,7 +1243,12 @@ def e22(rep, src):
                 visit(arm["body"])
             return
         if k == "if" and n["cond"].get("k") == "letcond":
-            bind(n["cond"]["pat"], labels(n["cond"]["e"]))
+            cp, ce = n["cond"]["pat"], n["cond"]["e"]
+            if ce["k"] == "tuple" and cp["k"] == "tuple" and len(cp["elems"]) == len(ce["elems"]):
+                for pe, se in zip(cp["elems"], ce["elems"]):
+                    bind(pe, labels(se))  # `let (A(l), B(r)) = (left, right) else { .. }`: positional, like the tuple match
+            else:
+                bind(cp, labels(ce))
         for v in n.values():
             if isinstance(v, (dict, list)):
                 visit(v)
@@ -1217,6 +1283,12 @@ def e19(rep, src):
     else:
         f = fq[0]
         obs = [m for m in find(f.body, "mcall") if m["m"] == "order_by" and len(m["args"]) == 2]
+        if not obs:
+            # the ORDER BY / LIMIT / OFFSET part factored out into a private method that try_from_query calls
+            called = {m["m"] for m in find(f.body, "mcall") if path_of(m["recv"]) == "self"}
+            for h in src.find_fns(file="sql/relation.rs"):
+                if h.name in called and h.body and not h.test and h.name != f.name:
+                    obs += [m for m in find(h.body, "mcall") if m["m"] == "order_by" and len(m["args"]) == 2]
         if len(obs) != 1:
             rep.undecidable("E19", key, "expected one builder.order_by(expr, asc) in try_from_query, found %d" % len(obs), f.where())
         else:
@@ -1410,6 +1482,162 @@ def e23(rep, src):
             return
 
 
+def e25(rep, src):
+    """A negated predicate is not read as the plain one."""
+    rep.rule(
+        "E25",
+        "sql/expr.rs, the expression visitor (`visit` over ast::Expr): every arm that takes apart a node with a `negated` flag (IN, BETWEEN, LIKE, ILIKE ..) and builds an expression "
+        "(does not end in todo!/unimplemented!) binds the flag and reads it in its body - `negated: _` is only written on arms that refuse the construct",
+        floor=4,
+        necessary="`x NOT BETWEEN 3 AND 7` read as `x BETWEEN 3 AND 7` is the complement of the query: the relation returns other rows, and the WHERE narrowing types x as int[3 7], "
+        "exactly the rows the clause rejects",
+    )
+    fs = [f for f in src.find_fns(name="visit", file="sql/expr.rs") if f.body and not f.test]
+    n = 0
+    for f in fs:
+        for m in find(f.body, "match"):
+            for a in m["arms"]:
+                pats = a["pat"]["cases"] if a["pat"]["k"] == "or" else [a["pat"]]
+                for pt in pats:
+                    if pt["k"] != "struct" or "Expr" not in pt["path"]["segs"]:
+                        continue
+                    fl = [x for x in pt.get("fields", []) if x["name"] == "negated"]
+                    if not fl:
+                        continue
+                    variant = pt["path"]["segs"][-1]
+                    body = a["body"]
+                    tail = body
+                    while tail["k"] == "block" and tail["stmts"] and tail["stmts"][-1]["k"] == "expr":
+                        tail = tail["stmts"][-1]["e"]
+                    refuses = tail["k"] == "macro" and tail.get("name") in ("todo", "unimplemented", "panic", "unreachable")
+                    sub = fl[0].get("pat")
+                    bound = pat_binds(sub) if sub is not None else ["negated"]
+                    read = bool(bound) and any(x["k"] == "path" and x["segs"][0] == bound[0] for x in walk(body))
+                    key = "%s@%s.negated" % (f.qual.split("::")[-1] if "::" in f.qual else f.qual, variant)
+                    n += 1
+                    rep.instance("E25", key, {"variant": variant, "refused": refuses, "flag_read": read})
+                    if not refuses and not read:
+                        rep.violation("E25", key, "the arm for ast::Expr::%s builds an expression without reading `negated`: NOT %s is read as %s" % (variant, variant.upper(), variant.upper()), "src/sql/expr.rs:%d" % a["l"])
+    if n == 0:
+        rep.undecidable("E25", "visit", "no arm with a `negated` flag found in the expression visitor of sql/expr.rs", "src/sql/expr.rs")
+
+
+def e26(rep, src):
+    """ORDER BY / LIMIT / OFFSET of a query are applied unless all three are absent."""
+    rep.rule(
+        "E26",
+        "sql/relation.rs try_from_query, SELECT case: the shortcut that returns the relation of the SELECT as it is (no Map for ORDER BY / LIMIT / OFFSET) is taken only when the query has "
+        "no ORDER BY, no LIMIT and no OFFSET - its condition, evaluated over the 8 presence combinations of `order_by`, `limit`, `offset`, holds for (absent, absent, absent) alone",
+        floor=8,
+        necessary="`SELECT .. OFFSET 90` compiled without its OFFSET returns other rows (and a size bound of 100 instead of 10); the renderer writes an offset-only Map exactly in that shape, so the rendered query does not re-read to itself",
+    )
+    import itertools
+    from .canon import canon_view
+
+    fq = src.find_fns(name="try_from_query", file="sql/relation.rs")
+    key = "try_from_query@clauses"
+    if len(fq) != 1:
+        rep.undecidable("E26", key, "try_from_query not found (%d)" % len(fq), "src/sql/relation.rs")
+        return
+    f = canon_view(fq[0], src, helpers=False)  # an early `return Ok(relation)` reads as the then-branch of an if / else
+    names = ("order_by", "limit", "offset")
+
+    class Unknown(Exception):
+        pass
+
+    def ev(e, env):
+        k = e["k"]
+        if k == "unary" and e["op"].strip() == "!":
+            return not ev(e["e"], env)
+        if k == "binary" and e["op"].strip() in ("&&", "||"):
+            a, b = ev(e["lhs"], env), ev(e["rhs"], env)
+            return (a and b) if e["op"].strip() == "&&" else (a or b)
+        if k == "mcall" and not e["args"] and e["m"] in ("is_empty", "is_none", "is_some"):
+            r = e["recv"]
+            while r["k"] in ("ref", "paren") or (r["k"] == "mcall" and r["m"] in ("as_ref", "iter", "clone") and not r["args"]):
+                r = r["e"] if r["k"] in ("ref", "paren") else r["recv"]
+            nm = path_of(r)
+            if nm in env:
+                return env[nm] if e["m"] == "is_some" else not env[nm]
+        if k == "binary" and e["op"].strip() in ("==", "!=", ">") and e["rhs"]["k"] == "lit" and str(e["rhs"]["v"]) == "0" and e["lhs"]["k"] == "mcall" and e["lhs"]["m"] == "len":
+            nm = path_of(e["lhs"]["recv"])
+            if nm in env:
+                return (not env[nm]) if e["op"].strip() == "==" else env[nm]
+        raise Unknown(show(e, 60))
+
+    sites = []
+    for n in find(f.body, "if"):
+        if n["cond"]["k"] == "letcond" or n.get("else") is None:
+            continue
+        mentioned = {x["segs"][0] for x in walk(n["cond"]) if x["k"] == "path" and len(x["segs"]) == 1} & set(names)
+        tv = block_value(n["then"])
+        if mentioned and tv is not None and tv["k"] == "call" and path_of(tv["f"]) == "Ok" and len(tv["args"]) == 1 and tv["args"][0]["k"] == "path":
+            sites.append(n)
+    if len(sites) != 1:
+        rep.undecidable("E26", key, "expected one `if <no ORDER BY / LIMIT / OFFSET> { Ok(relation) } else { .. }` in try_from_query, found %d" % len(sites), f.where())
+        return
+    cond = sites[0]["cond"]
+    for combo in itertools.product((False, True), repeat=3):
+        env = dict(zip(names, combo))
+        try:
+            taken = ev(cond, env)
+        except Unknown as u:
+            rep.undecidable("E26", key, "the condition of the shortcut cannot be evaluated: `%s`" % u, f.where())
+            return
+        present = [n_ for n_ in names if env[n_]]
+        rep.instance("E26", "%s:%s" % (key, "+".join(present) or "none"), {"present": present, "shortcut_taken": taken}, nontrivial=False)
+        if taken and present:
+            rep.violation("E26", key, "a query with %s (and nothing else) takes the shortcut `%s`: the clause is dropped" % (" and ".join(p_.upper().replace("_", " ") for p_ in present), show(cond, 80)), "src/sql/relation.rs:%d" % sites[0]["l"])
+            return
+
+
+def e27(rep, src):
+    """The output name of an unaliased column reference is the column's own name."""
+    rep.rule(
+        "E27",
+        "sql/relation.rs, unaliased select items: the name of `SELECT a` is the identifier a and the name of `SELECT t.a` is its last component (arms `ast::Expr::Identifier(i)` and "
+        "`ast::Expr::CompoundIdentifier(is)` -> `is.last()` of the implicit-alias match); only other expressions get a generated `field_xxxx` name",
+        floor=2,
+        necessary="SQL names the output column of `SELECT t.a FROM t` `a`: with a generated name the schema, the rendered CTE column list and every outer reference to `a` differ from what the query means "
+        "(`SELECT a FROM (SELECT t.a FROM t)` is refused)",
+    )
+    from .canon import canon_view
+
+    fs = [f for f in src.find_fns(file="sql/relation.rs") if f.body and not f.test and any(is_call_to(c, "namer::name_from_content") or (path_of(c["f"]) or "").endswith("name_from_content") for c in find(f.body, "call"))]
+    cands = []
+    for f0 in fs:
+        f = canon_view(f0, src, helpers=False)
+        for m in find(f.body, "match"):
+            vs = {}
+            for a in m["arms"]:
+                for pt in (a["pat"]["cases"] if a["pat"]["k"] == "or" else [a["pat"]]):
+                    if pt["k"] == "tuplestruct" and "Expr" in pt["path"]["segs"] and pt["path"]["segs"][-1] in ("Identifier", "CompoundIdentifier"):
+                        vs[pt["path"]["segs"][-1]] = (a, pt)
+            gen = any((path_of(c["f"]) or "").endswith("name_from_content") for a in m["arms"] for c in find(a["body"], "call"))
+            if gen and vs:
+                cands.append((f0, m, vs))
+    key = "implicit-alias"
+    if len(cands) != 1:
+        rep.undecidable("E27", key, "expected one `match expr { Identifier(..) => .., CompoundIdentifier(..) => .., other => name_from_content(..) }` in sql/relation.rs, found %d" % len(cands), "src/sql/relation.rs")
+        return
+    f0, m, vs = cands[0]
+    for v in ("Identifier", "CompoundIdentifier"):
+        k2 = "%s@%s" % (key, v)
+        if v not in vs:
+            rep.instance("E27", k2, {"variant": v, "arm": None})
+            rep.violation("E27", k2, "an unaliased ast::Expr::%s falls to the generated-name arm: `SELECT %s` gets a field_xxxx name instead of `a`" % (v, "a" if v == "Identifier" else "t.a"), "src/sql/relation.rs:%d" % m["l"])
+            continue
+        a, pt = vs[v]
+        b = pat_binds(pt)
+        uses = [x for x in walk(a["body"]) if x["k"] == "path" and b and x["segs"][0] == b[0]]
+        last = [x for x in find(a["body"], "mcall") if x["m"] == "last" and b and path_of(x["recv"]) == b[0]]
+        gen = any((path_of(c["f"]) or "").endswith("name_from_content") for c in find(a["body"], "call"))
+        ok = bool(uses) and not gen and (v == "Identifier" or bool(last))
+        rep.instance("E27", k2, {"variant": v, "arm": show(a["body"], 80), "named_after_the_column": ok})
+        if not ok:
+            rep.violation("E27", k2, "the implicit name of an unaliased ast::Expr::%s is `%s`, not the column's own (last) identifier" % (v, show(a["body"], 80)), "src/sql/relation.rs:%d" % a["l"])
+
+
 def run(rep):
     rep.explanation = (
         "Table agreement and structural rules of the render / read round trip on the default (PostgreSQL) path. E3/E4 join the renderer table (variant -> translator method -> SQL spelling, read from the type-resolved MIR) "
@@ -1435,5 +1663,8 @@ def run(rep):
     e21(rep, src)
     e22(rep, src)
     e23(rep, src)
+    e25(rep, src)
+    e26(rep, src)
+    e27(rep, src)
     rep.assume("sqlparser 0.46 parses NAME(args) into ast::Expr::Function with that name, except the keyword functions listed in KEYWORD_FUNCTIONS")
     rep.assume("operators are rendered through same-named ast::BinaryOperator / UnaryOperator variants (read: function_match_constructor!)")
